@@ -60,10 +60,12 @@ def scripted(name: str, args: List[Any]) -> Any:
     if name == "matches":
         return celtypes.BoolType(len(args[0]) == len(args[1]))
     fam = name.split("_")[0]
+    ints = sum(int(a) for a in args if type(a).__name__ == "IntType")
+    others = sum(1 for a in args if type(a).__name__ != "IntType")
     if fam in INT_FUNCS:
-        return celtypes.IntType(1000 * INT_FUNCS[fam] + 7 * len(args) + sum(int(a) for a in args))
+        return celtypes.IntType(1000 * INT_FUNCS[fam] + 7 * len(args) + ints + 13 * others)
     if fam in BOOL_FUNCS:
-        return celtypes.BoolType((sum(int(a) for a in args) + len(args) + BOOL_FUNCS[fam]) % 2 == 0)
+        return celtypes.BoolType((ints + 13 * others + len(args) + BOOL_FUNCS[fam]) % 2 == 0)
     raise AssertionError(name)
 
 
@@ -97,7 +99,7 @@ def dispatch(name: str, args: Any) -> Any:
 
 
 def _is_int(a: Any) -> bool:
-    return isinstance(a, int) and not isinstance(a, bool)
+    return type(a).__name__ == "IntType"  # not BoolType (also an int subclass), not a Python bool
 
 
 # ---- callable kinds -----------------------------------------------------------------------------
